@@ -121,7 +121,11 @@ def _compact(rec, keep_plan):
 CHUNK = {"E2": 40, "E1": 12}
 
 
-def _worker(w, W, indices, engine, prop, master_seed, out_fd, n_samples, deadline):
+def _stopped(stop_path):
+    return stop_path is not None and os.path.exists(stop_path)
+
+
+def _worker(w, W, indices, engine, prop, master_seed, out_fd, n_samples, deadline, stop_path=None):
     """Worker loop: a pristine sub-zygote that forks one child per *chunk* of runs (fork
     and copy-on-write faults are serialised by this VM, so one fork per run would cap the
     machine at a few runs per second).  Inside a chunk the runs execute back to back; the
@@ -131,7 +135,7 @@ def _worker(w, W, indices, engine, prop, master_seed, out_fd, n_samples, deadlin
     indices = list(indices)
     K = CHUNK[engine]
     for c0 in range(0, len(indices), K):
-        if deadline is not None and time.monotonic() > deadline:
+        if (deadline is not None and time.monotonic() > deadline) or _stopped(stop_path):
             break
         chunk = indices[c0 : c0 + K]
         seeds = [run_seed_for(master_seed, engine, prop, i) for i in chunk]
@@ -140,7 +144,7 @@ def _worker(w, W, indices, engine, prop, master_seed, out_fd, n_samples, deadlin
             out = []
             plans = []
             for i, seed in zip(chunk, seeds):
-                if deadline is not None and time.monotonic() > deadline + 30:
+                if (deadline is not None and time.monotonic() > deadline + 30) or _stopped(stop_path):
                     break
                 plan = mod.plan_run(seed, prop)
                 plans.append(plan)
@@ -191,8 +195,14 @@ def engine_module(engine):
     raise ValueError(engine)
 
 
-def run_batch(engine, prop, master_seed, n_runs, workers, n_samples=3, wall_s=None, on_record=None):
-    """-> list of compact records (ordered by run index)."""
+def run_batch(engine, prop, master_seed, n_runs, workers, n_samples=3, wall_s=None, on_record=None, stop_after_violating_runs=None):
+    """-> list of compact records (ordered by run index).  The batch stops early once
+    stop_after_violating_runs runs carry a violation of this property (a broken tree fails
+    in most runs, and non-termination verdicts are expensive)."""
+    import tempfile
+
+    stop_path = os.path.join(tempfile.gettempdir(), "jaqsim-stop-%d-%d" % (os.getpid(), int(time.time() * 1000)))
+    violating = [0]
     gc.collect()
     gc.freeze()
     t0 = time.monotonic()
@@ -210,7 +220,7 @@ def run_batch(engine, prop, master_seed, n_runs, workers, n_samples=3, wall_s=No
                 os.close(rfd)
                 for r, _ in pipes:
                     os.close(r)
-                _worker(w, workers, range(w, n_runs, workers), engine, prop, master_seed, wfd, n_samples, deadline)
+                _worker(w, workers, range(w, n_runs, workers), engine, prop, master_seed, wfd, n_samples, deadline, stop_path)
             except BaseException:
                 traceback.print_exc()
                 code = 3
@@ -235,11 +245,18 @@ def run_batch(engine, prop, master_seed, n_runs, workers, n_samples=3, wall_s=No
                 line, bufs[fd] = bufs[fd].split(b"\n", 1)
                 rec = json.loads(line.decode("utf8"))
                 records[rec["i"]] = rec
+                if any(v.get("prop") == prop for v in rec.get("violations") or []):
+                    violating[0] += 1
+                    if stop_after_violating_runs and violating[0] >= stop_after_violating_runs and not os.path.exists(stop_path):
+                        open(stop_path, "w").close()
                 if on_record:
                     on_record(rec)
     for pid in pids:
         os.waitpid(pid, 0)
-    timed_out = len(records) < n_runs
+    stopped_early = os.path.exists(stop_path)
+    if stopped_early:
+        os.unlink(stop_path)
+    timed_out = len(records) < n_runs and not stopped_early
     for fd in bufs:
         os.close(fd)
     gc.unfreeze()
